@@ -344,14 +344,24 @@ def r4(ck, F):
             ck.ok("C08.R4", key + ": hint = the directive set's max_level", fn=bh.path, detail=h)
         else:
             ck.bad("C08.R4", key + ": hint = the directive set's max_level", where(bh.raw["sp"]), "hint is %s" % h, fn=bh.path)
-    # DirectiveSet::add raises max_level
+    directive_add_rule(ck, F)
+
+
+def directive_add_rule(ck, F, rid="C08.R4"):
+    """DirectiveSet::add keeps the cached max_level an upper bound of every stored directive's level: on every path
+    (overwrite of an equal directive as well as insertion) the new level is compared with max_level and max_level is
+    raised exactly when it is exceeded."""
     add = F.body("tracing_subscriber::filter::directive::DirectiveSet::<T>::add")
-    if ck.anchor("C08.R4", "DirectiveSet::add", add):
+    if ck.anchor(rid, "DirectiveSet::add", add):
         wrote = []
         for p in PathEval(add).run():
             if p.end != "return":
                 continue
             gt = [c for c in p.conds if c[0][0] == "call" and c[0][1].endswith("PartialOrd::gt")]
+            for c in p.conds:       # `max_level < level` is the same test with the operands swapped
+                if c[0][0] == "call" and c[0][1].endswith("PartialOrd::lt") and len(c[0][2]) == 2:
+                    t = c[0]
+                    gt.append((("call", t[1][:-2] + "gt", (t[2][1], t[2][0])) + tuple(t[3:]), c[1], c[2]))
             w = False
             for bb in p.blocks:
                 for s in add.blocks[bb]["stmts"]:
@@ -361,12 +371,12 @@ def r4(ck, F):
                 wrote.append((gt[0][1] != 0, w, show(gt[0][0])))
             else:
                 wrote.append((None, w, "<no comparison with max_level on this path>"))
-        # every path (overwrite of an existing directive as well as insertion) compares the new level with max_level
-        ok = wrote and all(taken is not None and taken == w for taken, w, _ in wrote) and any(taken for taken, _, _ in wrote) and all("max_level" in t for _, _, t in wrote)
+        ok = wrote and all(taken is not None and taken == w for taken, w, _ in wrote) and any(taken for taken, _, _ in wrote) and \
+            all(t.startswith("gt(") and t.rstrip(")").endswith("max_level") and "level(" in t for _, _, t in wrote)
         if ok:
-            ck.ok("C08.R4", "DirectiveSet::add raises max_level exactly when the new directive's level exceeds it", fn=add.path)
+            ck.ok(rid, "DirectiveSet::add raises max_level exactly when the new directive's level exceeds it", fn=add.path)
         else:
-            ck.bad("C08.R4", "DirectiveSet::add raises max_level exactly when the new directive's level exceeds it", where(add.raw["sp"]), "rows %s" % wrote, fn=add.path)
+            ck.bad(rid, "DirectiveSet::add raises max_level exactly when the new directive's level exceeds it", where(add.raw["sp"]), "rows %s" % wrote, fn=add.path)
 
 
 def r5(ck, F):
